@@ -80,6 +80,10 @@ func OwnedBy(m Mismatch, a map[string]any, prop string) bool {
 	if prop == "" || prop == "ALL" {
 		return true
 	}
+	if name, _ := a["a"].(string); name == "ChannelBind" && prop == "C08" &&
+		(strings.HasPrefix(m.Kind, "perm") || strings.HasPrefix(m.Kind, "chan")) {
+		return true // a ChannelBind leaves the tables as C08 says: conflicting ones change nothing
+	}
 	if name, _ := a["a"].(string); name == "BadCred" && prop == "C03" {
 		return true // a request with defective credentials had an effect or a wrong answer
 	}
@@ -349,6 +353,16 @@ func CompareOut(exp []any, obs []Obs, pr Proj, w *World, a map[string]any) []Mis
 			kind := "cliout+"
 			if sameButPayload(eData, k) {
 				kind = "cliout~"
+			}
+			// the datagram the spec expects, to this client, in another encapsulation or under another channel
+			// number / peer address: wrong attribution (the expectation is used up: one fault, one report)
+			for ek, n := range eData {
+				if n > 0 && strings.HasPrefix(ek, fmt.Sprintf("toclient|%v|", o["to"])) && strings.HasSuffix(ek, fmt.Sprintf("|%v", o["pay"])) {
+					kind = "cliout~"
+					eData[ek]--
+
+					break
+				}
 			}
 			ms = append(ms, Mismatch{kind, "unexpected toward client: " + k})
 			if o["to"] != actor {
